@@ -18,8 +18,17 @@
 //!    call = each tuple on its own, inverse∘forward and forward∘inverse.
 //!  * differential: molodensky (three parameterisations, full and abridged, both directions)
 //!    against `cart ellps=E0 | helmert x= y= z= | cart inv ellps=E1`, second order in the shift.
+//!  * container dimension (sections `*-containers*`): every statement above is made about the
+//!    *operands*, whatever coordinate set holds them.  Each of the 36 container kinds (Vec / array /
+//!    &mut slice of Coor4D, Coor3D, Coor2D, Coor32, plain or in the (set, h, t) / (set, t) adapters)
+//!    presents documented tuples to an operator (Coor3D: epoch NaN; Coor2D/Coor32: height 0, epoch
+//!    NaN, f32 values; the adapters: their fixed values).  The stored result must be, bit for bit,
+//!    the operator on a Vec<Coor4D> of those tuples, that 4-D result must satisfy the reference model
+//!    (forward: T + (1+s)Rx; inverse: the model forward takes it back to second order), a per-tuple
+//!    epoch of NaN gives NaN, and with `t_obs` the result equals the rate-carrying operator without
+//!    `t_obs` on the same points at epoch t_obs - in the dimensions the container stores.
 
-use geodesy::prelude::{Context, Coor4D, Ellipsoid, EllipsoidBase, Minimal, OpHandle};
+use geodesy::prelude::{Context, Coor2D, Coor32, Coor3D, Coor4D, CoordinateSet, Ellipsoid, EllipsoidBase, Minimal, OpHandle};
 use proptest::prelude::*;
 use serde::{Deserialize, Serialize};
 use vcore::engine::Failure;
@@ -859,6 +868,10 @@ fn build_helmert(raw: RawH) -> HCase {
 }
 
 fn helmert_case(max_pts: usize) -> impl Strategy<Value = HCase> {
+    helmert_case_n(1, max_pts)
+}
+
+fn helmert_case_n(min_pts: usize, max_pts: usize) -> impl Strategy<Value = HCase> {
     let params = (val3(1000.0), val3(10.0), val(100.0), val3(10.0), val3(0.1), val(1.0));
     let shape = (0u8..8, any::<u16>(), 0u8..3, prop::option::weighted(0.3, 0u8..3), any::<bool>(), any::<bool>());
     let time = (
@@ -869,7 +882,7 @@ fn helmert_case(max_pts: usize) -> impl Strategy<Value = HCase> {
         prop::bool::weighted(0.5),
     );
     let text = (any::<u8>(), any::<u8>());
-    let pts = prop::collection::vec((point_xyz(), any::<u16>()), 1..=max_pts);
+    let pts = prop::collection::vec((point_xyz(), any::<u16>()), min_pts..=max_pts);
     (params, shape, time, text, pts).prop_map(|((t, r, s, dt, dr, ds), (kind, subset, angle_class, single_axis, exact, pv), (t_epoch, t_obs, offsets, weird, use_weird), (list_mask, extras), pts)| {
         build_helmert(RawH { kind, subset, t, r, s, dt, dr, ds, angle_class, single_axis, exact, pv, t_epoch, t_obs, list_mask, extras, offsets, weird, use_weird, pts })
     })
@@ -965,20 +978,61 @@ fn molodensky_def(c: &MCase, e0: &str, da: f64, df: f64) -> String {
 }
 
 fn check_molodensky(c: &MCase, rec: &mut Rec) -> CaseResult {
-    let e0name: &str = if c.form == 1 { "GRS80" } else { &c.e0 };
-    let (_, el0) = ellipsoid(e0name)?;
-    let (_, el1) = ellipsoid(&c.e1)?;
-    let (da, df) = (el1.a - el0.a, el1.f - el0.f);
-    let d = f3(&c.d);
-    let def = molodensky_def(c, e0name, da, df);
-    let path = format!("cart ellps={e0name} | helmert x={} y={} z={} | cart inv ellps={}", num(d[0]), num(d[1]), num(d[2]), c.e1);
-    let mut ctx = Minimal::new();
-    let op = inst(&mut ctx, &def)?;
-    let op_path = inst(&mut ctx, &path)?;
-    let dir = if c.fwd { Fwd } else { Inv };
+    molo_eval(c, rec, true).map(|_| ())
+}
+
+/// Molodensky on a Vec<Coor4D> of the case's points against the Helmert path; returns the library result.
+/// `book`: do the class / non-trivial bookkeeping of the molodensky section.
+fn molo_eval(c: &MCase, rec: &mut Rec, book: bool) -> Result<Vec<Coor4D>, Failure> {
+    let mut m = MoloOps::new(c)?;
     let inp = c4s(&c.pts);
-    let got = apply_set(&ctx, op, dir, &def, &inp, true)?;
-    let want = apply_set(&ctx, op_path, dir, &path, &inp, false)?;
+    m.judge(c, &inp, rec, book)
+}
+
+/// the molodensky operator of a case and the Helmert path it approximates, instantiated once
+struct MoloOps {
+    ctx: Minimal,
+    op: OpHandle,
+    op_path: OpHandle,
+    def: String,
+    path: String,
+    e0name: String,
+    el0: El,
+    el1: El,
+}
+
+impl MoloOps {
+    fn new(c: &MCase) -> Result<MoloOps, Failure> {
+        let e0name: &str = if c.form == 1 { "GRS80" } else { &c.e0 };
+        let (_, el0) = ellipsoid(e0name)?;
+        let (_, el1) = ellipsoid(&c.e1)?;
+        let (da, df) = (el1.a - el0.a, el1.f - el0.f);
+        let d = f3(&c.d);
+        let def = molodensky_def(c, e0name, da, df);
+        let path = format!("cart ellps={e0name} | helmert x={} y={} z={} | cart inv ellps={}", num(d[0]), num(d[1]), num(d[2]), c.e1);
+        let mut ctx = Minimal::new();
+        let op = inst(&mut ctx, &def)?;
+        let op_path = inst(&mut ctx, &path)?;
+        Ok(MoloOps { ctx, op, op_path, def, path, e0name: e0name.to_string(), el0, el1 })
+    }
+
+    /// the operator on a Vec<Coor4D> of `inp` (direction of the case) against the Helmert path
+    fn judge(&mut self, c: &MCase, inp: &[Coor4D], rec: &mut Rec, book: bool) -> Result<Vec<Coor4D>, Failure> {
+        let MoloOps { ctx, op, op_path, def, path, e0name, el0, el1 } = self;
+        let (op, op_path, el0, el1) = (*op, *op_path, *el0, *el1);
+        let (def, path, e0name): (&str, &str, &str) = (def, path, e0name);
+        let (da, df) = (el1.a - el0.a, el1.f - el0.f);
+        let d = f3(&c.d);
+        let dir = if c.fwd { Fwd } else { Inv };
+        let got = apply_set(ctx, op, dir, def, inp, true)?;
+        let want = apply_set(ctx, op_path, dir, path, inp, false)?;
+        molo_judge(c, ctx, def, path, e0name, el0, el1, da, df, &d, dir, inp, got, want, rec, book)
+    }
+}
+
+#[allow(clippy::too_many_arguments)]
+fn molo_judge(c: &MCase, ctx: &mut Minimal, def: &str, path: &str, e0name: &str, el0: El, el1: El, da: f64, df: f64, d: &[f64; 3], dir: Dir, inp: &[Coor4D], got: Vec<Coor4D>, want: Vec<Coor4D>, rec: &mut Rec, book: bool) -> Result<Vec<Coor4D>, Failure> {
+    let d = *d;
     let delta = l2(&d) + da.abs() + el0.a * df.abs();
     // the ellipsoid on which input / output live
     let (el_in, el_out) = if c.fwd { (el0, el1) } else { (el1, el0) };
@@ -999,8 +1053,8 @@ fn check_molodensky(c: &MCase, rec: &mut Rec) -> CaseResult {
                 let mut twin = c.clone();
                 twin.form = 1;
                 let def_twin = molodensky_def(&twin, "GRS80", 0.0, 0.0);
-                let op_twin = inst(&mut ctx, &def_twin)?;
-                let y_twin = apply_set(&ctx, op_twin, dir, &def_twin, &inp, true)?;
+                let op_twin = inst(ctx, &def_twin)?;
+                let y_twin = apply_set(ctx, op_twin, dir, &def_twin, inp, true)?;
                 if vec_bits_eq(&y_twin, &got) {
                     vfail!("molodensky-ellps_0-overridden-by-default-ellps",
                         "'{def}' ({dir:?}) on {}: library {}; the Helmert path '{path}' gives {}; ground error {err:e} m, tolerance {tol:e} m (delta = {delta} m). The result is bit-identical to that of '{def_twin}': ellps_0={} is ignored, da = {da}, df = {df:e} are lost",
@@ -1021,6 +1075,9 @@ fn check_molodensky(c: &MCase, rec: &mut Rec) -> CaseResult {
         }
     }
     rec.count("tuples", inp.len() as u64);
+    if !book {
+        return Ok(got);
+    }
     rec.class(&format!("form{}|{}|{}", c.form, if c.abridged { "abridged" } else { "full" }, if c.fwd { "fwd" } else { "inv" }));
     if c.form == 2 && e0name != "GRS80" {
         rec.class(if (el0.a - 6378137.0).abs() + el0.a * (el0.f - 1.0 / 298.257222101).abs() > 1.0 { "form2-source-far-from-default" } else { "form2-source-close-to-default" });
@@ -1028,10 +1085,14 @@ fn check_molodensky(c: &MCase, rec: &mut Rec) -> CaseResult {
     if delta > 1.0 {
         rec.nontrivial(&(def, c.fwd, inp.first().map(|p| (p[0].to_bits(), p[1].to_bits()))));
     }
-    Ok(())
+    Ok(got)
 }
 
 fn molodensky_case(max_pts: usize) -> impl Strategy<Value = MCase> {
+    molodensky_case_n(1, max_pts)
+}
+
+fn molodensky_case_n(min_pts: usize, max_pts: usize) -> impl Strategy<Value = MCase> {
     let geo = (
         prop_oneof![6 => -3.14159f64..3.14159, 1 => Just(0.0), 1 => Just(3.1415), 1 => Just(-3.1415)],
         prop_oneof![6 => -89.0f64..89.0, 1 => Just(0.0), 1 => Just(89.0), 1 => Just(-89.0), 1 => -1.0f64..1.0],
@@ -1039,7 +1100,7 @@ fn molodensky_case(max_pts: usize) -> impl Strategy<Value = MCase> {
         prop_oneof![Just(0.0), 1900.0f64..2100.0, Just(f64::NAN)],
     )
         .prop_map(|(lon, lat, h, t)| p4(lon, lat.to_radians(), h, t));
-    (any::<u16>(), any::<u16>(), 0u8..3, any::<bool>(), any::<bool>(), val3(1000.0), prop::collection::vec(geo, 1..=max_pts)).prop_map(|(a, b, form, abridged, fwd, d, pts)| {
+    (any::<u16>(), any::<u16>(), 0u8..3, any::<bool>(), any::<bool>(), val3(1000.0), prop::collection::vec(geo, min_pts..=max_pts)).prop_map(|(a, b, form, abridged, fwd, d, pts)| {
         let mut i0 = pick(a, ELLPS_POOL.len());
         let i1 = pick(b, ELLPS_POOL.len());
         if form == 2 && i0 == 0 {
@@ -1047,6 +1108,420 @@ fn molodensky_case(max_pts: usize) -> impl Strategy<Value = MCase> {
         }
         MCase { e0: ELLPS_POOL[i0].into(), e1: ELLPS_POOL[i1].into(), form, abridged, fwd, d: [F(d[0] + 0.0), F(d[1] + 0.0), F(d[2] + 0.0)], pts }
     })
+}
+
+// ---- the container dimension ---------------------------------------------------------------------
+//
+// The property quantifies over operands, not over the type that holds them.  A container of native
+// dimension below 4 presents documented tuples to an operator (doc comments of the CoordinateSet
+// implementations and of the (set, h, t) / (set, t) adapters; written down here, not read through
+// the library) and keeps of the result what it can hold.
+
+trait Elem: Copy {
+    const NAME: &'static str;
+    fn from4(p: [f64; 4]) -> Self;
+    /// what get_coord documents for an element holding p
+    fn seen(p: [f64; 4]) -> [f64; 4];
+    fn stored(&self) -> Vec<f64>;
+    /// what the element holds after set_coord(r)
+    fn keep(r: [f64; 4]) -> Vec<f64>;
+}
+impl Elem for Coor4D {
+    const NAME: &'static str = "Coor4D";
+    fn from4(p: [f64; 4]) -> Self {
+        Coor4D(p)
+    }
+    fn seen(p: [f64; 4]) -> [f64; 4] {
+        p
+    }
+    fn stored(&self) -> Vec<f64> {
+        self.0.to_vec()
+    }
+    fn keep(r: [f64; 4]) -> Vec<f64> {
+        r.to_vec()
+    }
+}
+impl Elem for Coor3D {
+    const NAME: &'static str = "Coor3D";
+    fn from4(p: [f64; 4]) -> Self {
+        Coor3D([p[0], p[1], p[2]])
+    }
+    fn seen(p: [f64; 4]) -> [f64; 4] {
+        [p[0], p[1], p[2], f64::NAN]
+    }
+    fn stored(&self) -> Vec<f64> {
+        self.0.to_vec()
+    }
+    fn keep(r: [f64; 4]) -> Vec<f64> {
+        r[..3].to_vec()
+    }
+}
+impl Elem for Coor2D {
+    const NAME: &'static str = "Coor2D";
+    fn from4(p: [f64; 4]) -> Self {
+        Coor2D([p[0], p[1]])
+    }
+    fn seen(p: [f64; 4]) -> [f64; 4] {
+        [p[0], p[1], 0.0, f64::NAN]
+    }
+    fn stored(&self) -> Vec<f64> {
+        self.0.to_vec()
+    }
+    fn keep(r: [f64; 4]) -> Vec<f64> {
+        r[..2].to_vec()
+    }
+}
+impl Elem for Coor32 {
+    const NAME: &'static str = "Coor32";
+    fn from4(p: [f64; 4]) -> Self {
+        Coor32([p[0] as f32, p[1] as f32])
+    }
+    fn seen(p: [f64; 4]) -> [f64; 4] {
+        [p[0] as f32 as f64, p[1] as f32 as f64, 0.0, f64::NAN]
+    }
+    fn stored(&self) -> Vec<f64> {
+        vec![self.0[0] as f64, self.0[1] as f64]
+    }
+    fn keep(r: [f64; 4]) -> Vec<f64> {
+        vec![r[0] as f32 as f64, r[1] as f32 as f64]
+    }
+}
+
+/// tuples per container case (arrays need a constant; = the number of stations of the finite grid)
+const CONT_N: usize = 6;
+const INNERS: [&str; 4] = ["Coor4D", "Coor3D", "Coor2D", "Coor32"];
+const SHAPES: [&str; 3] = ["Vec", "array", "&mut slice"];
+const WRAPS: [&str; 3] = ["", "(set, h, t)", "(set, t)"];
+
+struct ContOut {
+    label: String,
+    stored: Vec<Vec<f64>>,
+    count: usize,
+}
+
+fn cont_apply(ctx: &Minimal, op: OpHandle, dir: Dir, def: &str, label: &str, set: &mut dyn CoordinateSet) -> Result<usize, Failure> {
+    match try_apply(ctx, op, dir_of(dir == Dir::Fwd), set) {
+        Err(p) => Err(Failure { key: format!("panic-apply@{}", p.sig()), msg: format!("applying '{def}' ({dir:?}) to a {label} panics: {} at {}:{}", p.msg, p.file, p.line) }),
+        Ok(Err(e)) => Err(Failure { key: "apply-error-container".into(), msg: format!("apply of '{def}' ({dir:?}) to a {label} returned an error: {e:?}") }),
+        Ok(Ok(n)) => Ok(n),
+    }
+}
+
+/// the tuple a container of element kind `inner` in adapter `wrap` documents for an element made from p
+fn seen_of(inner: usize, wrap: usize, p: [f64; 4], h: f64, t: f64) -> [f64; 4] {
+    let b = match inner {
+        0 => Coor4D::seen(p),
+        1 => Coor3D::seen(p),
+        2 => Coor2D::seen(p),
+        _ => Coor32::seen(p),
+    };
+    match wrap {
+        1 => [b[0], b[1], h, t],
+        2 => [b[0], b[1], b[2], t],
+        _ => b,
+    }
+}
+fn keep_of(inner: usize, r: [f64; 4]) -> Vec<f64> {
+    match inner {
+        0 => Coor4D::keep(r),
+        1 => Coor3D::keep(r),
+        2 => Coor2D::keep(r),
+        _ => Coor32::keep(r),
+    }
+}
+fn cont_label(inner: usize, shape: usize, wrap: usize) -> String {
+    if wrap == 0 {
+        format!("{} of {}", SHAPES[shape], INNERS[inner])
+    } else {
+        format!("{} of {} in {}", SHAPES[shape], INNERS[inner], WRAPS[wrap])
+    }
+}
+
+#[allow(clippy::too_many_arguments)]
+fn cont_run<T: Elem>(ctx: &Minimal, op: OpHandle, dir: Dir, def: &str, shape: usize, wrap: usize, pts: &[[f64; 4]], h: f64, t: f64) -> Result<ContOut, Failure>
+where
+    Vec<T>: CoordinateSet,
+    [T; CONT_N]: CoordinateSet,
+    for<'a> &'a mut [T]: CoordinateSet,
+{
+    let label = if wrap == 0 { format!("{} of {}", SHAPES[shape], T::NAME) } else { format!("{} of {} in {}", SHAPES[shape], T::NAME, WRAPS[wrap]) };
+    let mut elems: Vec<T> = pts.iter().map(|p| T::from4(*p)).collect();
+    let count;
+    match shape {
+        0 => match wrap {
+            1 => {
+                let mut w = (elems, h, t);
+                count = cont_apply(ctx, op, dir, def, &label, &mut w)?;
+                elems = w.0;
+            }
+            2 => {
+                let mut w = (elems, t);
+                count = cont_apply(ctx, op, dir, def, &label, &mut w)?;
+                elems = w.0;
+            }
+            _ => count = cont_apply(ctx, op, dir, def, &label, &mut elems)?,
+        },
+        1 => {
+            let mut a: [T; CONT_N] = match elems[..].try_into() {
+                Ok(a) => a,
+                Err(_) => vfail!("harness-bad-container-case", "a container case needs exactly {CONT_N} points"),
+            };
+            match wrap {
+                1 => {
+                    let mut w = (a, h, t);
+                    count = cont_apply(ctx, op, dir, def, &label, &mut w)?;
+                    a = w.0;
+                }
+                2 => {
+                    let mut w = (a, t);
+                    count = cont_apply(ctx, op, dir, def, &label, &mut w)?;
+                    a = w.0;
+                }
+                _ => count = cont_apply(ctx, op, dir, def, &label, &mut a)?,
+            }
+            elems = a.to_vec();
+        }
+        _ => {
+            let mut sl: &mut [T] = &mut elems[..];
+            match wrap {
+                1 => {
+                    let mut w = (sl, h, t);
+                    count = cont_apply(ctx, op, dir, def, &label, &mut w)?;
+                }
+                2 => {
+                    let mut w = (sl, t);
+                    count = cont_apply(ctx, op, dir, def, &label, &mut w)?;
+                }
+                _ => count = cont_apply(ctx, op, dir, def, &label, &mut sl)?,
+            }
+        }
+    }
+    Ok(ContOut { label, stored: elems.iter().map(|e| e.stored()).collect(), count })
+}
+
+#[allow(clippy::too_many_arguments)]
+fn cont_any(inner: usize, ctx: &Minimal, op: OpHandle, dir: Dir, def: &str, shape: usize, wrap: usize, pts: &[[f64; 4]], h: f64, t: f64) -> Result<ContOut, Failure> {
+    match inner {
+        0 => cont_run::<Coor4D>(ctx, op, dir, def, shape, wrap, pts, h, t),
+        1 => cont_run::<Coor3D>(ctx, op, dir, def, shape, wrap, pts, h, t),
+        2 => cont_run::<Coor2D>(ctx, op, dir, def, shape, wrap, pts, h, t),
+        _ => cont_run::<Coor32>(ctx, op, dir, def, shape, wrap, pts, h, t),
+    }
+}
+
+/// spacing of f32 numbers around v (what a Coor32 can resolve)
+fn f32_spacing(v: f64) -> f64 {
+    let a = (v.abs() as f32).max(f32::MIN_POSITIVE);
+    (f32::from_bits(a.to_bits() + 1) - a) as f64
+}
+
+#[derive(Clone, Debug, Serialize, Deserialize)]
+struct HContCase {
+    /// exactly CONT_N tuples: what a 4-D container holds
+    base: HCase,
+    /// fixed third coordinate and epoch of the (set, h, t) and (set, t) adapters
+    wh: F,
+    wt: F,
+}
+
+fn check_helmert_containers(c: &HContCase, rec: &mut Rec) -> CaseResult {
+    vensure!(c.base.pts.len() == CONT_N, "harness-bad-container-case", "a container case needs exactly {CONT_N} points");
+    let spec = Spec::of(&c.base);
+    let def = spec.render(c.base.list_mask);
+    let mut ctx = Minimal::new();
+    let op = inst(&mut ctx, &def)?;
+    let dynamic = spec.dynamic();
+    let per_tuple = spec.per_tuple_epochs();
+    let regime = if !dynamic { "static" } else if per_tuple { "tuple-epoch" } else { "t_obs" };
+    // the rate-carrying operator without t_obs
+    let free = match (dynamic, spec.t_obs) {
+        (true, Some(tau)) => {
+            let mut f = spec.clone();
+            f.t_obs = None;
+            let d = f.render(c.base.list_mask);
+            Some((inst(&mut ctx, &d)?, d, tau))
+        }
+        _ => None,
+    };
+    let pts: Vec<[f64; 4]> = c.base.pts.iter().map(|p| [p[0].0, p[1].0, p[2].0, p[3].0]).collect();
+    let (wh, wt) = (c.wh.0, c.wt.0);
+    let mut cache = MatCache { keys: vec![], mats: vec![] };
+    let mut nan_outcomes = 0u64;
+
+    for inner in 0..4usize {
+        for wrap in 0..3usize {
+            let seen: Vec<[f64; 4]> = pts.iter().map(|p| seen_of(inner, wrap, *p, wh, wt)).collect();
+            let seen4: Vec<Coor4D> = seen.iter().map(|p| Coor4D(*p)).collect();
+            let view = cont_label(inner, 0, wrap);
+            for dir in [Fwd, Inv] {
+                // -- the operator on a Vec<Coor4D> holding the documented tuples, against the reference model
+                let reference = apply_set(&ctx, op, dir, &def, &seen4, true)?;
+                let mut tols = [0.0f64; CONT_N];
+                let mut nan_epoch = [false; CONT_N];
+                for i in 0..CONT_N {
+                    let x = xyz(&seen4[i]);
+                    let got = xyz(&reference[i]);
+                    if per_tuple && seen[i][3].is_nan() {
+                        // P + (NaN - t_epoch)*dP is NaN for every parameter group (IEEE): no epoch, no result
+                        nan_epoch[i] = true;
+                        vensure!(got.iter().all(|v| v.is_nan()), "rates-without-epoch-give-a-number",
+                            "'{def}' ({dir:?}) has rates and no t_obs; the tuple {:?} (the view a {view} gives of {:?}) has no epoch (NaN), yet the result is {got:?}: parameters at epoch NaN are NaN",
+                            seen[i], pts[i]);
+                        continue;
+                    }
+                    let e = spec.at(seen[i][3]);
+                    let m = cache.get(&mut ctx, &spec, &e.r, rec)?;
+                    let sc = (1.0 + e.s * 1e-6).abs();
+                    if dir == Fwd {
+                        let want = model_fwd(&e, &m, &x);
+                        let unit = EPS * spec.mag(&e, &x);
+                        let tol = K_ROUND * unit;
+                        let err = l2(&sub(&got, &want));
+                        tols[i] = tol;
+                        if unit > 0.0 && err.is_finite() {
+                            rec.metric("worst_forward_units", err / unit);
+                        }
+                        vensure!(err <= tol, &format!("forward-model-{regime}-container-view"),
+                            "'{def}' on {:?} (the view a {view} gives of {:?}): library {got:?}; reference T(t) + (1+s(t)*1e-6)*R(r(t))*x = {want:?} with T = {:?}, r = {:?} arcsec, s = {} ppm, R = {m:?}; error {err:e} m, tolerance {tol:e} m",
+                            seen[i], pts[i], e.t, e.r, e.s);
+                    } else {
+                        // the model forward takes the inverse back: R R^T - I is second order (nil when exact)
+                        let r = rad3(&e.r);
+                        let r2 = if spec.exact || !spec.rotated() { 0.0 } else { r[0] * r[0] + r[1] * r[1] + r[2] * r[2] };
+                        let unit = EPS * (spec.mag(&e, &got) + l1(&x) + l1(&e.t)) * (1.0_f64).max(1.0 / sc);
+                        let tol = K_SECOND_ORDER * r2 * l2(&sub(&x, &e.t)) + K_ROUND * unit;
+                        let again = model_fwd(&e, &m, &got);
+                        let err = l2(&sub(&again, &x));
+                        tols[i] = K_ROUND * EPS * spec.mag(&e, &x) * (1.0_f64).max(1.0 / sc);
+                        if r2 == 0.0 && unit > 0.0 && err.is_finite() {
+                            rec.metric("worst_inverse_units_exact", err / unit);
+                        }
+                        vensure!(err <= tol, &format!("inverse-model-{regime}-container-view"),
+                            "'{def}' Inv on {:?} (the view a {view} gives of {:?}): library {got:?}; the reference forward T + (1+s*1e-6)*R*x with T = {:?}, r = {:?} arcsec, s = {} ppm takes that to {again:?}, not back to the input; error {err:e} m, tolerance {tol:e} m ({})",
+                            seen[i], pts[i], e.t, e.r, e.s, if r2 == 0.0 { "rounding only".to_string() } else { format!("1.05*|r|^2*|x - T| with |r|^2 = {r2:e}, plus rounding") });
+                    }
+                }
+                // -- t_obs = tau: the operator without t_obs on the same points at epoch tau
+                let at_tau = match &free {
+                    Some((op_free, def_free, tau)) => {
+                        let with_tau: Vec<Coor4D> = seen.iter().map(|p| Coor4D([p[0], p[1], p[2], *tau])).collect();
+                        Some((apply_set(&ctx, *op_free, dir, def_free, &with_tau, true)?, def_free, *tau))
+                    }
+                    None => None,
+                };
+                // -- the containers themselves
+                for shape in 0..3usize {
+                    let out = cont_any(inner, &ctx, op, dir, &def, shape, wrap, &pts, wh, wt)?;
+                    for i in 0..CONT_N {
+                        let want = keep_of(inner, reference[i].0);
+                        let same = want.len() == out.stored[i].len() && want.iter().zip(&out.stored[i]).all(|(a, b)| bits_eq(*a, *b));
+                        vensure!(same, &format!("{regime}-helmert-result-depends-on-container"),
+                            "'{def}' ({dir:?}) on a {} (fixed h = {wh:?}, t = {wt:?}): tuple {i}, which the container presents as {:?}, comes back as {:?}; the same operator on a Vec<Coor4D> holding that tuple gives {:?}, of which the container keeps {want:?}",
+                            out.label, seen[i], out.stored[i], reference[i].0);
+                        if let Some((y, def_free, tau)) = &at_tau {
+                            let want = keep_of(inner, y[i].0);
+                            for j in 0..want.len().min(3) {
+                                let tol = tols[i] + if inner == 3 { f32_spacing(want[j]) } else { 0.0 };
+                                let err = (out.stored[i][j] - want[j]).abs();
+                                vensure!(err <= tol, "t_obs-not-equivalent-to-tuple-epoch-in-container",
+                                    "'{def}' ({dir:?}) on a {}: tuple {i} {:?} comes back as {:?}, but '{def_free}' on the same point with epoch {tau} gives {:?}; coordinate {j} differs by {err:e} m, tolerance {tol:e} m",
+                                    out.label, seen[i], out.stored[i], y[i].0);
+                            }
+                        }
+                    }
+                    if nan_epoch.iter().all(|b| !*b) {
+                        vensure!(out.count == CONT_N, &format!("{regime}-helmert-count-depends-on-container"),
+                            "'{def}' ({dir:?}) on a {} reports {} successes for {CONT_N} tuples with finite results {:?}", out.label, out.count, out.stored);
+                    } else {
+                        nan_outcomes += 1;
+                    }
+                    rec.count("container_applications", 1);
+                    if inner != 0 && wrap == 0 {
+                        rec.count(&format!("{regime}_on_plain_container_below_4d"), 1);
+                    } else if inner != 0 {
+                        rec.count(&format!("{regime}_on_adapter_over_container_below_4d"), 1);
+                    }
+                }
+            }
+        }
+    }
+    rec.count("tuple_epoch_nan_outcomes", nan_outcomes);
+    rec.count("tuples", (72 * CONT_N) as u64);
+    rec.class(&format!(
+        "{regime}|{}|{}|{}",
+        kind_label(&spec),
+        if !spec.rotated() { "unrotated" } else if spec.pv { "position_vector" } else { "coordinate_frame" },
+        if spec.exact { "exact" } else { "small-angle" }
+    ));
+    rec.class(if wt.is_nan() { "adapter epoch NaN" } else { "adapter epoch finite" });
+    rec.nontrivial(&(def, pts[0][0].to_bits(), wh.to_bits(), wt.to_bits()));
+    Ok(())
+}
+
+fn helmert_cont_case() -> impl Strategy<Value = HContCase> {
+    let wh = prop_oneof![1 => Just(0.0f64), 5 => -6.4e6f64..6.4e6, 1 => Just(1234.5f64), 1 => Just(-1.0e7f64)];
+    (helmert_case_n(CONT_N, CONT_N), wh, prop::option::weighted(0.85, epoch_offset())).prop_map(|(base, wh, off)| {
+        let wt = off.map_or(f64::NAN, |o| base.t_epoch.0 + o);
+        HContCase { base, wh: F(wh), wt: F(wt) }
+    })
+}
+
+/// the finite Helmert grid (6 stations) x adapter epoch finite / NaN
+fn grid_cont_case(i: usize) -> HContCase {
+    HContCase { base: grid_case(i % GRID_N), wh: F(1234.5), wt: F(if (i / GRID_N) % 2 == 0 { 2015.5 } else { f64::NAN }) }
+}
+
+#[derive(Clone, Debug, Serialize, Deserialize)]
+struct MContCase {
+    /// exactly CONT_N tuples (lon, lat, h, t)
+    base: MCase,
+    wh: F,
+    wt: F,
+}
+
+fn check_molodensky_containers(c: &MContCase, rec: &mut Rec) -> CaseResult {
+    vensure!(c.base.pts.len() == CONT_N, "harness-bad-container-case", "a container case needs exactly {CONT_N} points");
+    let b = &c.base;
+    let mut ops = MoloOps::new(b)?;
+    let def = ops.def.clone();
+    let dir = if b.fwd { Fwd } else { Inv };
+    let pts: Vec<[f64; 4]> = b.pts.iter().map(|p| [p[0].0, p[1].0, p[2].0, p[3].0]).collect();
+    let (wh, wt) = (c.wh.0, c.wt.0);
+    for inner in 0..4usize {
+        for wrap in 0..3usize {
+            let seen: Vec<[f64; 4]> = pts.iter().map(|p| seen_of(inner, wrap, *p, wh, wt)).collect();
+            // the operator on a Vec<Coor4D> of the documented tuples, judged against the Helmert path
+            let seen4: Vec<Coor4D> = seen.iter().map(|p| Coor4D(*p)).collect();
+            let reference = ops.judge(b, &seen4, rec, false)?;
+            for shape in 0..3usize {
+                let out = cont_any(inner, &ops.ctx, ops.op, dir, &def, shape, wrap, &pts, wh, wt)?;
+                for i in 0..CONT_N {
+                    let want = keep_of(inner, reference[i].0);
+                    let same = want.len() == out.stored[i].len() && want.iter().zip(&out.stored[i]).all(|(a, b)| bits_eq(*a, *b));
+                    vensure!(same, "molodensky-result-depends-on-container",
+                        "'{def}' ({dir:?}) on a {} (fixed h = {wh:?}, t = {wt:?}): tuple {i}, which the container presents as {:?}, comes back as {:?}; the same operator on a Vec<Coor4D> holding that tuple gives {:?}, of which the container keeps {want:?}",
+                        out.label, seen[i], out.stored[i], reference[i].0);
+                }
+                // successes = tuples whose three computed coordinates are NaN-free (all of them, for the finite inputs generated here)
+                let ok = reference.iter().filter(|r| !(r[0].is_nan() || r[1].is_nan() || r[2].is_nan())).count();
+                vensure!(out.count == ok, "molodensky-count-depends-on-container",
+                    "'{def}' ({dir:?}) on a {} reports {} successes; the operator on a Vec<Coor4D> of the same tuples has {ok} NaN-free results of {CONT_N}; stored {:?}", out.label, out.count, out.stored);
+                rec.count("container_applications", 1);
+                if inner != 0 {
+                    rec.count("applications_on_container_below_4d", 1);
+                }
+            }
+        }
+    }
+    rec.class(&format!("form{}|{}|{}", b.form, if b.abridged { "abridged" } else { "full" }, if b.fwd { "fwd" } else { "inv" }));
+    rec.nontrivial(&(def, b.fwd, pts[0][0].to_bits(), wh.to_bits()));
+    Ok(())
+}
+
+fn molodensky_cont_case() -> impl Strategy<Value = MContCase> {
+    let wh = prop_oneof![1 => Just(0.0f64), 4 => -1000.0f64..10000.0, 1 => Just(1234.5f64)];
+    let wt = prop_oneof![2 => Just(2020.0f64), 2 => 1990.0f64..2030.0, 1 => Just(f64::NAN)];
+    (molodensky_case_n(CONT_N, CONT_N), wh, wt).prop_map(|(base, wh, wt)| MContCase { base, wh: F(wh), wt: F(wt) })
 }
 
 // ---- self test of the reference ---------------------------------------------------------------
@@ -1079,6 +1554,7 @@ fn main() {
     run.assume("rounding tolerance = 16 units of eps*(|T(t)|_1 + (1+|s|)|x|_1 (1+|r(t)|_1)); second-order terms are the mathematical bounds |r|^2|x| (round trip) and |r|^2|dx|/2 (distances) with 5 % slack");
     run.assume("molodensky: ellipsoid constants a, f are taken from the library's own Ellipsoid::named (table correctness belongs to C06); |lat| <= 89 deg, -1 km <= h <= 10 km; tolerance 2*delta^2/(a*cos(lat)) + 1 mm, abridged additionally 4*(|h|/a + f)*delta");
 
+    run.assume("containers: the tuple a container presents to an operator is what its documentation states (Coor3D: epoch NaN; Coor2D: height 0, epoch NaN; Coor32: the f32 values, height 0, epoch NaN; (set, h, t) and (set, t): the fixed values), written down in the harness; a 2-D container keeps x, y of the result, a 3-D one x, y, z; rates with an epoch of NaN and no t_obs give NaN coordinates (IEEE), the success count is then not judged");
     let max_pts = if run.is_thorough() { 48 } else { 24 };
     run.enumerate(
         "helmert-grid",
@@ -1102,6 +1578,29 @@ fn main() {
         n,
         || molodensky_case(16),
         check_molodensky,
+    );
+    run.enumerate(
+        "helmert-containers-grid",
+        "the finite Helmert grid (7 parameter-set kinds x 2 conventions x exact/small-angle x 3 angle classes x with/without t_obs x 3 spellings; 6 stations, 4 epochs) x adapter epoch finite/NaN, applied in both directions to all 36 container kinds (Vec / array / &mut slice of Coor4D, Coor3D, Coor2D, Coor32, each plain, in (set, h, t) and in (set, t)): stored result = bit for bit the operator on a Vec<Coor4D> of the tuples the container documents (height 0 / epoch NaN / f32 / fixed values), that 4-D result against the matrix reference (forward) or taken back by the reference forward (inverse), NaN when rates meet an epoch of NaN, with t_obs = the operator without t_obs at that epoch in the stored dimensions, all successes counted",
+        2 * GRID_N,
+        grid_cont_case,
+        check_helmert_containers,
+    );
+    let n = run.scale(12_000, 300_000);
+    run.section(
+        "helmert-containers",
+        "random parameter sets as in helmert-model with exactly 6 points, adapter height within +-1e7 m and adapter epoch within the epoch range or NaN, both directions on all 36 container kinds; oracles as in helmert-containers-grid; every case is non-trivial (33 of 36 kinds are not a plain 4-D container)",
+        n,
+        helmert_cont_case,
+        check_helmert_containers,
+    );
+    let n = run.scale(6_000, 150_000);
+    run.section(
+        "molodensky-containers",
+        "molodensky cases as in molodensky-vs-helmert-path with exactly 6 points, adapter height in [-1,10] km, adapter epoch finite or NaN, on all 36 container kinds: stored result = bit for bit the operator on a Vec<Coor4D> of the documented tuples (2-D containers: height 0), which is judged against the Helmert path with the tolerance of that section; all successes counted",
+        n,
+        molodensky_cont_case,
+        check_molodensky_containers,
     );
     run.finish("generated Helmert parameter sets and mixed-epoch coordinate sets checked against an EPSG GN 7-2 matrix reference evaluated per tuple, plus metamorphic laws (distance ratio, convention sign/transposition, spelling, t_obs, inverse) and Molodensky against the cartesian Helmert path; see sections");
 }
